@@ -65,7 +65,10 @@ def _case(draw):
         f = math.exp(-need)
     z0 = zm * f
     speed = draw(gen.logfl(0.5, 15.0))
-    ang = draw(st.one_of(gen.fl(0.0, 2 * math.pi), st.sampled_from([0.0, 0.5 * math.pi, math.pi, 1.5 * math.pi])))
+    ang = draw(st.one_of(gen.fl(0.0, 2 * math.pi), st.sampled_from([0.0, 0.5 * math.pi, math.pi, 1.5 * math.pi]),
+                         # a hair off an axis: what a compass wind direction becomes after sin/cos, or a sonic's tilt error
+                         st.tuples(st.integers(0, 3), st.integers(3, 15), st.sampled_from([-1.0, 1.0]), gen.fl(1.0, 9.9)).map(
+                             lambda t: t[0] * 0.5 * math.pi + t[2] * t[3] * 10.0 ** -t[1])))
     wind = [speed * math.cos(ang), speed * math.sin(ang)]
     n = draw(st.one_of(st.integers(2, 30), st.integers(2, 300)))
     case = {"closure": closure, "zm": zm, "mol": mol, "wind": wind, "n": n, "stab": stab, "int_typed": int_typed,
@@ -202,6 +205,16 @@ def check_case(case):
         # Kx = K v^2/|U|^2, Ky = K u^2/|U|^2  =>  diffusion tensor has no component along the wind
         if not (np.abs(Kx - K * vm**2 / U**2).max() <= 1e-9 * K.max() and np.abs(Ky - K * um**2 / U**2).max() <= 1e-9 * K.max()):
             out.bad("MOSTM: horizontal diffusivities are not the crosswind projection of K")
+        # ... each to its own relative accuracy: the crosswind share K v^2/|U|^2 is a product and has a few ulp of error
+        # however small it is (wind a fraction of a degree off an axis, as wind_dir = 90 gives through sin(pi) = 1.2e-16);
+        # below 1e-250 K the squares underflow and nothing is claimed
+        for name, got, share in (("Kx", Kx, vm**2 / U**2), ("Ky", Ky, um**2 / U**2)):
+            ref = K * share
+            ok = np.abs(got - ref) <= 1e-9 * ref + 1e-250 * K.max()
+            if not np.all(ok):
+                i = int(np.argmin(ok))
+                out.bad(f"MOSTM: {name}[{i}] = {got[i]!r} but K * crosswind share = {ref[i]!r} (relative deviation "
+                        f"{abs(got[i] - ref[i]) / max(ref[i], 1e-300):.3e}; wind {(um, vm)})")
     else:
         if not (np.all(Kx > 0) and np.all(Ky > 0)):
             out.bad("Kx, Ky not strictly positive")
